@@ -2,7 +2,8 @@
 (* C20: evaluating a loss or drawing a batch is a pure function of its arguments.
    Objects are abstracted to FINGERPRINTS (structure + array bytes + nested user dictionaries).
    The model explores every ORDER of calls up to MaxLen over a small universe:
-     Eval(l, b, m)  loss l on batch variant b in mode m (eager | jit | value-and-grad primal)
+     Eval(l, b, m)  loss l on batch variant b in mode m (eager | jit closing over the loss | jitarg: the loss is an
+                    argument of the compiled function, as in jinns.solve | value-and-grad primal)
      Draw(g, k, m)  get_batch (eager | jit) on the k-th state already produced for generator g (0 = initial)
    Pure semantics: a call never changes the fingerprint of an argument and its result is a function
    of the argument fingerprints only (memo).  Every maximal sequence is emitted as a scenario and
@@ -28,7 +29,7 @@ Draw(g, k, m) == /\ Len(calls) < MaxLen /\ k < states[g]
               /\ calls' = Append(calls, [kind |-> "draw", g |-> g, k |-> k, m |-> m])
               /\ states' = [states EXCEPT ![g] = IF k = @ - 1 THEN @ + 1 ELSE @]   \* drawing from the newest state yields a new one
               /\ UNCHANGED <<fp, memo>>
-Next == (\E c \in EvalCalls : Eval(c)) \/ (\E g \in Gens, k \in 0..MaxLen, m \in Modes \ {"vg"} : Draw(g, k, m))
+Next == (\E c \in EvalCalls : Eval(c)) \/ (\E g \in Gens, k \in 0..MaxLen, m \in Modes \ {"vg", "jitarg"} : Draw(g, k, m))
 Spec == Init /\ [][Next]_vars
 ArgsUnchanged == [][fp' = fp]_vars
 MemoCoversCalls == \A i \in DOMAIN calls : calls[i].kind = "eval" => \E s \in DOMAIN memo : s[1] = calls[i].l /\ s[2] = calls[i].b
